@@ -575,3 +575,52 @@ def check(run, prog, tier):
                    f.file, n.get("l"), f.name, what="%s holds a command-giver stack entry across a call that can raise" % f.name)
     if nk == 0:
         run.ob("C05-k", "held:none", True, "no function holds a command-giver stack entry (save_command_giver() has no callers)", None, None, None)
+
+    # ---- C05-l clean-up slots on the value stack run after the registers were restored and leave them alone
+    run.rule("C05-l", "a T_ERROR_HANDLER slot is run by the stack unwinding of restore_context(), which has put command_giver (and, through pop_control_stack(), the frame registers) back before it pops the value stack: no function installed in such a slot - directly or through a file-local helper - stores to one of the registers restore_context()/pop_control_stack() write, otherwise the recovery point resumes with the value of the failed callee", 4)
+    rc_ = run.need(prog.func("restore_context"), "restore_context")
+    pcs_ = run.need(prog.func("pop_control_stack"), "pop_control_stack")
+
+    def gstores(g):
+        out = {}
+        for b, i, n in g.nodes():
+            tgt = strip(n["L"]) if n.get("k") == "Asg" else strip(n["e"]) if n.get("k") == "Un" and n.get("op") in ("++", "--") else None
+            if tgt is not None and tgt.get("k") == "Ref" and tgt.get("d") in ("global", "static"):
+                out.setdefault(tgt.get("n"), n.get("l"))
+        return out
+    REGS = (set(gstores(rc_)) | set(gstores(pcs_))) - {"sp"}
+    run.need("command_giver" in REGS and len(REGS) >= 4, "registers written by restore_context()/pop_control_stack() (found %s)" % sorted(REGS))
+    nl = 0
+    installed = {}
+    for f in sorted(prog.functions(), key=lambda x: (x.file, x.line)):
+        for b, i, n in f.nodes():
+            if n.get("k") == "Asg" and n.get("op") == "=" and strip(n["L"]).get("k") == "Mem" and strip(n["L"]).get("f") == "error_handler":
+                r = strip(n["R"])
+                while r.get("k") in ("Cast", "Un") and isinstance(r.get("e"), dict):
+                    r = strip(r["e"])
+                if r.get("k") == "Ref" and r.get("d") == "func":
+                    installed.setdefault(r.get("n"), (f, n.get("l")))
+                else:
+                    nl += 1
+                    run.ob("C05-l", "slot:%s:%s" % (f.name, n.get("l")), None, "`%s`: the function installed is not named" % show(n)[:60], f.file, n.get("l"), f.name)
+    for name, (inst, line) in sorted(installed.items()):
+        h = prog.func(name)
+        if h is None:
+            continue
+        nl += 1
+        run.saw(h)
+        seen, todo, bad = {h.name}, [h], []
+        while todo:
+            g = todo.pop()
+            for v, l in gstores(g).items():
+                if v in REGS:
+                    bad.append((g.name, v, l))
+            for b, i, n in g.calls():
+                c = prog.func(n.get("fn")) if n.get("fn") else None
+                if c is not None and c.static and c.file == h.file and c.name not in seen and len(seen) < 12:
+                    seen.add(c.name)
+                    todo.append(c)
+        run.ob("C05-l", "slot:%s" % name, not bad, "%s() (installed by %s()) and its file-local helpers store to none of %s" % (name, inst.name, ", ".join(sorted(REGS)[:6]) + " ..") if not bad else
+               "%s() stores to `%s` at line %s; it is run from the value-stack unwinding of restore_context(), after `%s` was set back to the value of the recovery point: the recovery point resumes with the callee's value" % (bad[0][0], bad[0][1], bad[0][2], bad[0][1]),
+               h.file, bad[0][2] if bad else h.line, h.name, what="the unwind callback %s() overwrites the restored register %s" % (name, bad[0][1] if bad else ""))
+    run.need(nl >= 4, "functions installed in T_ERROR_HANDLER slots (found %d)" % nl)
